@@ -595,6 +595,34 @@ def find_sat_elem(exp, mod, fr):
     raise ToolLimit('satellite fragment %s not found' % satmod)
 
 
+FRAG_BITS = {}   # fragment / leaf name -> bit length of its encoding with every list at capacity, as an expression over the crate's constants (None: not computed)
+
+
+def cap_expr(cap):
+    return cap if re.fullmatch(r'\d+', cap) else 'crate::msg::' + cap
+
+
+def frag_bits(fr):
+    """bit length of enc(v) when every list holds `capacity` elements: the sum of the leaf widths along the generated enc()"""
+    if fr.kind == 'record':
+        parts = []
+        for st in fr.enc_steps:
+            b = FRAG_BITS.get(st[1])
+            if b is None:
+                return None
+            parts.append(b)
+        return '(' + ' + '.join(parts) + ')'
+    if fr.kind in ('vec', 'vec_len'):
+        b = FRAG_BITS.get(fr.elem)
+        if b is None:
+            return None
+        e = '%s * %s' % (cap_expr(fr.cap), b)
+        return '(%d + %s)' % (fr.lb, e) if fr.kind == 'vec_len' else '(' + e + ')'
+    if fr.kind == 'str_len':
+        return '(%d + 8 * %s)' % (fr.lb, cap_expr(fr.cap))
+    return None
+
+
 def emit_module(vf, exp, path, mod, depth, stats, leafs, parent_mod=None):
     """emit module `mod` (child of msg tree) recursively"""
     ind = '    ' * depth
@@ -615,6 +643,13 @@ def emit_module(vf, exp, path, mod, depth, stats, leafs, parent_mod=None):
         emit_module(vf, exp, path + [c.name], c, depth + 1, stats, leafs, parent_mod=mod)
     if fr is not None:
         i2 = ind + '    '
+        FRAG_BITS[fr.name] = frag_bits(fr)
+        if len(path) == 3 and path[0] == 'msg' and path[1] == path[2] and FRAG_BITS[fr.name] is not None and re.search(r'crate::msg::', FRAG_BITS[fr.name]):
+            # C15: "for every element count from zero to the list's capacity the message encodes within the 1023-byte payload":
+            # 12 bits of message number + the encoding with every list full must fit 8184 bits (enc() is monotone in the counts)
+            vgen.emit_lemma(vf, 'l2.%s.full_lists_fit_payload' % fr.name, {'C15', 'C09'},
+                            i2 + 'pub proof fn lemma_full_lists_fit_payload()\n' + i2 + '    ensures 12 + %s <= 8184,\n' % FRAG_BITS[fr.name] + i2 + '{}')
+            stats.setdefault('fits', []).append((fr.name, FRAG_BITS[fr.name]))
         if fr.struct is not None:
             vf.emit(i2 + '#[derive(Default, Clone)]  // X7: derives re-attached in place of their expansion')
             vf.emit(i2 + '#[verifier::allow(autoderive_clone_without_spec)]')
@@ -741,6 +776,9 @@ def build(vf, srcs):
     pre = PRELUDE2.replace('@PUTS@', '\n'.join(put_stub(c) for c in UNSIGNED)).replace('@PARSES@', '\n'.join(parse_stub(c) for c in UNSIGNED) + '\n' + SIGNED_PARSE).replace('@LEAVES@', leaves)
     vf.emit(pre)
     stats = {'record': [], 'opaque': []}
+    FRAG_BITS.clear()
+    for f in fields:
+        FRAG_BITS[f.name] = str(f.len)
     dfs = exp.find(['df', 'dfs'])
     for c in dfs.children:
         if c.kind == 'mod' and c.name in others:
